@@ -34,8 +34,8 @@ def run(ctx):
     #    interleavings at lock-site granularity) and free-running goroutines; every event re-derived by Trace_TxPool.tla
     stats, accepted = pc.record_and_validate(ctx, 48 if q else 1600, "all", "both", "c18-mixed")
     if not q:
-        s2, a2 = pc.record_and_validate(ctx, 400, "mixed,limits,unsynced", "free", "c18-free", seed_offset=5)
-        s3, a3 = pc.record_and_validate(ctx, 400, "limits,mixed,fork", "sched", "c18-limits", seed_offset=9)
+        s2, a2 = pc.record_and_validate(ctx, 400, "mixed,limits,unsynced,drain,basefee", "free", "c18-free", seed_offset=5)
+        s3, a3 = pc.record_and_validate(ctx, 400, "limits,mixed,fork,drain,basefee", "sched", "c18-limits", seed_offset=9)
         stats, accepted = stats + s2 + s3, accepted + a2 + a3
     if accepted and not ctx.violations:
         pc.binding_demo(ctx, accepted)
